@@ -99,6 +99,7 @@ def run_c27(v):
     # --- I->S: seeded random schedules over the four (task order, IndexedDB order) combinations
     rnd = _run_trace(v, binary, "random", ["--scenarios", 400 if quick else 6000])
     model = rnd["model"]          # which protocol model the code follows step by step
+    lib.log(f"random schedules: {rnd['scenarios']} scenarios, model followed = {model}, drift = {rnd['drift']}")
     by_combo = {}
     for e in lib.read_ndjson(rnd["trace"]):
         if e["ev"] == "reset":
@@ -114,31 +115,33 @@ def run_c27(v):
         "any_creation": dict(task="any", idb="creation"),
         "any_any": dict(task="any", idb="any"),
         "bug_flush_first_only": dict(task="fifo", idb="creation", bug="flush_first_only"),
-        "bug_resolve_before_put": dict(task="fifo", idb="creation", bug="resolve_before_put"),
         "bug_manifest_before_segments": dict(task="fifo", idb="creation", bug="manifest_before_segments"),
-        "bug_coalesce_drops_newest": dict(task="fifo", idb="creation", bug="coalesce_drops_newest"),
         "fix_any_any": dict(task="any", idb="any", fix="manifest_barrier", nseg=1 if quick else 2),
     }
     if not quick:
+        jobs["bug_resolve_before_put"] = dict(task="fifo", idb="creation", bug="resolve_before_put")
+        jobs["bug_coalesce_drops_newest"] = dict(task="fifo", idb="creation", bug="coalesce_drops_newest")
         # the whole as-built any/any state space (TLC stops at the first counterexample otherwise):
         # the invariants that do not depend on the manifest/segment order must hold everywhere
         jobs["any_any_full_space"] = dict(task="any", idb="any",
                                           invs=["TypeOK", "NoStuck", "EventuallyAllPresent", "ReloadIsSomeCommit"])
         jobs["fix_any_any_3seg"] = dict(task="any", idb="any", fix="manifest_barrier", nseg=3, commits=1)
         jobs["fifo_creation_5seg"] = dict(task="fifo", idb="creation", nseg=5)
-    with cf.ThreadPoolExecutor(max_workers=5 if quick else 4) as ex:
+    with cf.ThreadPoolExecutor(max_workers=7 if quick else 4) as ex:
         big = ("any_any_full_space", "fix_any_any", "fix_any_any_3seg")
         futs = {n: ex.submit(_mc, n, (8 if n in big else 2) if quick else (8 if n in big else 4), **kw)
                 for n, kw in sorted(jobs.items(), key=lambda x: x[0] not in big)}
         res = {n: f.result() for n, f in futs.items()}
+    lib.log("MC: " + ", ".join(f"{n}={r.get('distinct')}st/{r['wall_s']:.0f}s" for n, r in res.items()))
     lib.require_mc_ok(res["fifo_creation"], "MC_Browser microtask order + creation-order IndexedDB")
     for n in res:
         if n.startswith("fix_") or n.startswith("fifo_creation_") or n == "any_any_full_space":
             lib.require_mc_ok(res[n], f"MC_Browser {n}")
     lib.expect_mc_violation(res["bug_flush_first_only"], "flush awaits only the first receiver", {"ResolvedCommitPresent"})
-    lib.expect_mc_violation(res["bug_resolve_before_put"], "waiters resolved before the put completes", {"ResolvedCommitPresent"})
     lib.expect_mc_violation(res["bug_manifest_before_segments"], "manifest stored before the segment files", PROP_INVS)
-    lib.expect_mc_violation(res["bug_coalesce_drops_newest"], "coalescing keeps the oldest snapshot", {"EventuallyAllPresent"})
+    if not quick:
+        lib.expect_mc_violation(res["bug_resolve_before_put"], "waiters resolved before the put completes", {"ResolvedCommitPresent"})
+        lib.expect_mc_violation(res["bug_coalesce_drops_newest"], "coalescing keeps the oldest snapshot", {"EventuallyAllPresent"})
     asbuilt = {}
     for n in ("fifo_any", "any_creation", "any_any"):
         r = res[n]
@@ -158,6 +161,7 @@ def run_c27(v):
     gen_cfg = _cfg("gen", task="any", idb="any", fix=model, nseg=5, gen=True, invs=["PrintCase"])
     g = lib.tlc_mc("MC_Browser.tla", gen_cfg, workers=1, simulate=3 if quick else 30, depth=140, seed=v.seed,
                    timeout=3000, coverage=False)
+    lib.log(f"case generation: {g['wall_s']:.0f}s")
     if g["rc"] != 0:
         raise lib.ToolError("MC_Browser case generation failed\n" + g["raw"][-2000:])
     cases, seen = [], set()
@@ -203,7 +207,7 @@ def run_c27(v):
         "random_schedules": {f"{k[0]}/{k[1]}": {"scenarios": a, "reload_failed": b} for k, (a, b) in sorted(by_combo.items())},
         "tlc_schedules": {"generated": generated, "enacted": tlc["scenarios"], "model_predicts_failing_reload": predicted_bad,
                           "code_failed_reload": tlc["reload_failed"]},
-        "mutations_refuted_by_model": ["flush_first_only", "resolve_before_put", "manifest_before_segments", "coalesce_drops_newest"],
+        "mutations_refuted_by_model": sorted(n[4:] for n in res if n.startswith("bug_")),
         "samples": sample_dev or [e for e in lib.read_ndjson(rnd["trace"], 12)][:6],
         "exhaustive": False,
     })
